@@ -59,13 +59,6 @@ Definition qkey_of_skey (k : skey) : qkey :=
   | SKStr s => QStr s | SKU u => QU u | SKS z => QS z | SKF32 b => QF32 b | SKF64 b => QF64 b | SKTs s n => QTs s n
   end.
 
-(* ReadKey writes the slot of the kind of the key it reads: a request key that is a reference to that slot changes with it *)
-Definition same_slot (k : skey) (q : qkey) : bool :=
-  match k, q with
-  | SKStr _, QStr _ | SKU _, QU _ | SKS _, QS _ | SKF32 _, QF32 _ | SKF64 _, QF64 _ | SKTs _ _, QTs _ _ => true
-  | _, _ => false
-  end.
-
 Definition u64 : ity := mkIty false 64.
 Definition s64 : ity := mkIty true 64.
 
@@ -239,46 +232,6 @@ Section Scopes.
 
   Definition find_value_by_key (q : qkey) (st : oscope) (rest : list N) : out (bool * oscope) :=
     let loop st rest := find_loop (S (length (o_start st))) q 0 st rest in
-    match o_key st with
-    | Some k =>
-      if skey_eq k q then Go (true, st) rest
-      else match reset_key st rest with
-           | Go st1 rest1 => loop st1 rest1
-           | Raise e s p => Raise e (false, s) p
-           | NoFuel => NoFuel | Stale => Stale
-           end
-    | None => loop st rest
-    end.
-
-  (* FindValueByKey(key) when key is the reference the VisitKeys callback was handed (SerializeMapImpl passes it on):
-     every key read during the search into the slot of that kind is then compared with itself *)
-  Fixpoint find_loop_ref (fuel : nat) (q : qkey) (c : N) (st : oscope) (rest : list N) : out (bool * oscope) :=
-    match fuel with
-    | O => NoFuel
-    | S f =>
-      if c <? o_size st then
-        let st1 := if o_index st =? o_size st then set_index st 0 else st in
-        let rest1 := if o_index st =? o_size st then o_start st else rest in
-        match read_key rest1 with
-        | KOk k rest2 =>
-          let st2 := set_key st1 (Some k) in
-          let q1 := if same_slot k q then qkey_of_skey k else q in
-          if skey_eq k q1 then Go (true, st2) rest2
-          else match skip_at rest2 with
-               | AOk rest3 => find_loop_ref f q1 (c + 1) (set_index st2 (o_index st2 + 1)) rest3
-               | AErr e p => Raise (SE e) (false, st2) (Some p)
-               | AFuel => NoFuel
-               end
-        | KRaise e true => Raise (SE e) (false, st1) (Some rest1)
-        | KRaise e false => Raise (SE e) (false, set_key st1 (Some slot_written)) None
-        | KStale => Stale
-        | KFuel => NoFuel
-        end
-      else Go (false, set_key st None) rest
-    end.
-
-  Definition find_value_by_key_ref (q : qkey) (st : oscope) (rest : list N) : out (bool * oscope) :=
-    let loop st rest := find_loop_ref (S (length (o_start st))) q 0 st rest in
     match o_key st with
     | Some k =>
       if skey_eq k q then Go (true, st) rest
@@ -524,6 +477,14 @@ Section Scopes.
     let next := mkA (a_size st) (a_index st + 1) in
     match a with
     | AEnd => ([KIsEnd (a_index st =? a_size st)], Go st rest, false)
+    | AThrow e => ([], Raise e st (Some rest), false)             (* thrown by the caller's code: nothing moved *)
+    | ATry a' =>
+      (* try { a' } catch (OutOfRange): whatever raised it and wherever; the scopes between have been destroyed (their
+         destructors skip their rest) and have notified their parents, the reader stands where they left it *)
+      match run_areq a' st rest with
+      | (t, Raise SERange st' (Some r'), f) => (t ++ [KCaught], Go st' r', f)
+      | other => other
+      end
     | _ =>
       if a_index st =? a_size st then ([], Raise SERange st (Some rest), false)      (* CheckEnd *)
       else
@@ -561,7 +522,7 @@ Section Scopes.
             end
           | inl _ => ([KNone], Go st rest, false)
           end
-        | AEnd => ([], Go st rest, false)
+        | _ => ([], Go st rest, false)
         end
     end
   with run_areqs (l : areqs) (st : ascope) (rest : list N) {struct l} : res ascope :=
@@ -573,18 +534,19 @@ Section Scopes.
       | failed => failed
       end
     end
-  (* what the callback does with the key q it was handed (by reference: find_value_by_key_ref) *)
+  (* what the callback does with the key q it was handed: since d346324 a COPY of the visited key (VisitKeys), so the
+     keyed request is the ordinary one *)
   with run_vact (a : vact) (q : qkey) (st : oscope) (rest : list N) {struct a} : res oscope :=
     match a with
     | VSkip => ([], Go st rest, false)
     | VThrow e => ([], Raise e st (Some rest), false)            (* thrown by the caller's code: nothing moved *)
-    | VGet t => do_get find_value_by_key_ref q t st rest
-    | VObj body => do_obj find_value_by_key_ref (run_reqs body) q st rest
-    | VArr body => do_arr find_value_by_key_ref (run_areqs body) q st rest
-    | VBin n => do_bin find_value_by_key_ref n q st rest
+    | VGet t => do_get find_value_by_key q t st rest
+    | VObj body => do_obj find_value_by_key (run_reqs body) q st rest
+    | VArr body => do_arr find_value_by_key (run_areqs body) q st rest
+    | VBin n => do_bin find_value_by_key n q st rest
     | VBinArr n body =>                                           (* binary scope first, array scope when it is declined *)
-      match do_bin_gen find_value_by_key_ref n q st rest with
-      | (r, true) => seq_res r (do_arr find_value_by_key_ref (run_areqs body) q)
+      match do_bin_gen find_value_by_key n q st rest with
+      | (r, true) => seq_res r (do_arr find_value_by_key (run_areqs body) q)
       | (r, false) => r
       end
     end
